@@ -5,6 +5,7 @@ import (
 	"hash/fnv"
 	"math"
 	"math/rand"
+	"strconv"
 	"strings"
 	"sync"
 	"time"
@@ -29,6 +30,8 @@ type Conc struct {
 
 	NS       string
 	Names    map[string]string
+	Revs     map[int]int // abstract revision (1, 2, 3 of Storage.tla) -> concrete revision number
+	invRevs  map[int]int
 	Stat     map[string]string
 	invNames map[string]string
 	invStat  map[string]string
@@ -141,6 +144,23 @@ func NewConc(seed int64, sc Scenario, tier string) (*Conc, error) {
 	if r.Intn(3) == 0 { // often keep the natural reading
 		c.Stat = map[string]string{"deployed": "deployed", "superseded": "superseded", "failed": "failed"}
 	}
+	// the abstract revisions run on concrete revision numbers that, in most scenarios, straddle a
+	// decimal-length boundary (v9 / v10 / v11, v8 / v10 / v100, ...): string order of the keys then
+	// differs from numeric order of the revisions; sometimes the abstract order is permuted as well
+	triples := [][3]int{{1, 2, 3}, {9, 10, 11}, {8, 10, 100}, {99, 100, 101}, {1, 10, 2}, {7, 12, 9}, {2, 19, 100}, {9, 10, 100}}
+	tr := triples[0]
+	if p := r.Intn(100); p >= 25 {
+		tr = triples[1+r.Intn(len(triples)-1)]
+	}
+	if r.Intn(4) == 0 {
+		pm := r.Perm(3)
+		tr = [3]int{tr[pm[0]], tr[pm[1]], tr[pm[2]]}
+	}
+	c.Revs = map[int]int{1: tr[0], 2: tr[1], 3: tr[2]}
+	c.invRevs = map[int]int{}
+	for a, n := range c.Revs {
+		c.invRevs[n] = a
+	}
 	c.invNames, c.invStat = map[string]string{}, map[string]string{}
 	for a, n := range c.Names {
 		if err := chartutil.ValidateReleaseName(n); err != nil {
@@ -155,7 +175,41 @@ func NewConc(seed int64, sc Scenario, tier string) (*Conc, error) {
 }
 
 func (c *Conc) Info() *ConcInfo {
-	return &ConcInfo{Seed: c.seed, Namespace: c.NS, Names: c.Names, Statuses: c.Stat, Big: c.big}
+	revs := map[string]int{}
+	for a, n := range c.Revs {
+		revs[strconv.Itoa(a)] = n
+	}
+	return &ConcInfo{Seed: c.seed, Namespace: c.NS, Names: c.Names, Statuses: c.Stat, Revs: revs, Big: c.big}
+}
+
+// ConcRev is the concrete revision number of an abstract revision (itself when it has none).
+func (c *Conc) ConcRev(a int) int {
+	if n, ok := c.Revs[a]; ok {
+		return n
+	}
+	return a
+}
+
+// AbsRev maps a concrete revision number back; an unknown one becomes a negative number, which is no
+// revision of the specification.
+func (c *Conc) AbsRev(n int) int {
+	if a, ok := c.invRevs[n]; ok {
+		return a
+	}
+	if n > 0 {
+		return -n
+	}
+	return n - 1000000
+}
+
+// AbsVersion maps the value of a "version" label back ("?..." when it is no stored revision).
+func (c *Conc) AbsVersion(s string) string {
+	if n, err := strconv.Atoi(s); err == nil && strconv.Itoa(n) == s {
+		if a, ok := c.invRevs[n]; ok {
+			return strconv.Itoa(a)
+		}
+	}
+	return "?" + s
 }
 
 // AbsName / AbsStatus map concrete values back ("?…" when unknown).
@@ -320,7 +374,7 @@ func (c *Conc) generate(a AbsRel) (*rspb.Release, bool) {
 	r := rngFor(c.seed, c.sid, "content", a.Name, fmt.Sprint(a.Rev), fmt.Sprint(a.V))
 	big := false
 	name := c.Names[a.Name]
-	rel := &rspb.Release{Name: name, Namespace: c.NS, Version: a.Rev}
+	rel := &rspb.Release{Name: name, Namespace: c.NS, Version: c.ConcRev(a.Rev)}
 
 	// chart
 	md := &chart.Metadata{Name: "chart-" + randSeg(r, 4), Version: fmt.Sprintf("%d.%d.%d", r.Intn(9), r.Intn(20), a.V), APIVersion: "v2",
